@@ -117,8 +117,9 @@ def run(case, W):
     t = W.run(s, "san")
     if not t.ok:
         return Result(violation=("crash", str(t.crash)))
-    if t.xviol:
-        return Result(violation=("world-invariant", str(t.xviol[:2])))
+    xv = [x for x in t.xviol if x[1] in ('variable-guard-damaged', 'handler-capacity-or-pointer-wrong')]
+    if xv:
+        return Result(violation=("world-invariant", str(xv[:2])))
     if t.reason != "quiescent":
         return Result(violation=("no-quiescence", t.reason))
     cc, uc = S.ccap(s), S.ucap(s)
